@@ -20,6 +20,8 @@ for d in sorted(os.listdir(os.path.join(root, "seeded"))):
     s = s[:150] + ("..." if len(s) > 150 else "")
     base = (m.get("confirmed") or {}).get("baseline_with_patch", "")
     ok = "649 now passing of those: 649" in base
+    if m.get("stale"):
+        s = "[STALE: no longer applies to the repaired tree, see meta.json] " + s
     rows.append("| %s | %s | %s | %s | %s |" % (d, s, ", ".join(caught) or "-", ", ".join(missed) or "-", "yes" if ok else "see meta"))
 print("| change | what it does | caught by | run but quiet | baseline 649/649 |")
 print("|---|---|---|---|---|")
